@@ -96,6 +96,12 @@ CLAIMS["C04"] = dict(
     text="TLC shows on the models that the encoder never writes a slider path or timing line its decoder rejects; the real encoder's path text must equal the model's tokens for every decodable path string, and for every map of the corpus the encoded text must start with a version line, contain each header once in canonical order, have every record line accepted by its section's parse function, and re-decode to the same number of objects, timing points, breaks and colours.",
     note="Trusted: TLC, harness/src/roundtrip.rs::c04_problems (line classification). Key/value section writers are bound by the line-by-line validation only (no TLA+ model of their text).")
 
+CLAIMS["C03"] = dict(
+    category="model_checking", design_ref="DESIGN.md section 4, C03",
+    technique="TLA+ spec StrCodec (per text field: encoder line, reader trim, comment stripping, first-colon split, comma split, clean_filename as sequence operators over an 8-symbol alphabet) with invariant Survives checked by TLC on all strings up to a bound; every string replayed as an edit through the real encode -> decode with the spec's predicted read-back value; numeric / flag / list edits checked as a relation",
+    text="TLC checks for every string up to the bound (colons, `//`, commas, quotes, backslashes, spaces, non-ASCII) and every kind of text field that a representable value comes back unchanged, and predicts the exact read-back of every other value; the real pair encode/decode must return the predicted string for each (metadata texts, audio file name, background file, custom colour name) with all other preserved fields unchanged; about 100 single- and multi-field numeric, flag, enum, bookmark, colour and break edits per generated base map must survive as well.",
+    note="Representable sets per field are an interpretation written down in StrCodec!Representable. Derived values (slider velocities after a slider-multiplier edit, combo flags after a break edit) are excluded from the frame condition.")
+
 NOT_YET = "check not built yet in this round (planned, see DESIGN.md section 4)"
 NA = {
     "C17": "real-valued geometry (Hausdorff distance to Bezier/arc/Catmull curves): no discrete state or history for a TLA+ specification to decide; see DESIGN.md section 4, C17",
